@@ -238,6 +238,25 @@ def directed() -> Iterator[Tuple[str, G.Script]]:
         s.round(dt=6000)
         yield f"dynamic_id_churn_{keep}", probe(s)
 
+    # --- the 16-bit counters of the statistics messages at their boundary: exactly 65535 / 65536 / 65537 messages of one
+    # type in one interval, then an interval without that type
+    for n in (65535, 65536, 65537):
+        s = G.Script(); s.accept(2)
+        s.round([s.rd(1, cd.MT_CONNECT, G.p_connect(), src=10)])
+        s.round([s.rd(2, cd.MT_CONNECT, G.p_connect(), src=11)])
+        s.round([s.rd(2, cd.MT_SUBSCRIBE, G.p_i32(cd.MT_MESSAGE_TRAFFIC))])
+        s.round([s.rd(2, cd.MT_SUBSCRIBE, G.p_i32(cd.MT_TIMING_MESSAGE))])
+        s.round(dt=1100)
+        for _ in range(n):
+            s.round([s.rd(1, 1234, b"", src=10)], writable=[2])
+        s.round(dt=1100)
+        s.round([s.rd(1, 1236, b"", src=10)], writable=[2])
+        s.round([s.rd(1, 1236, b"", src=10)], writable=[2])
+        s.round(dt=1100)
+        s.round([s.rd(1, 1234, b"", src=10)], writable=[2])
+        s.round(dt=1100)
+        yield f"u16_boundary_{n}", s
+
     # --- DEBUG points: a listener of RTMA_LOG_DEBUG (or of everything) whose socket is broken / not writable is met by
     # the debug line of each operation: the requester itself (F13), or a bystander, or the module being removed
     for op in ("sub", "suball", "unsub", "pause", "resume", "setname", "ready", "data", "disc", "connect_named",
